@@ -514,7 +514,59 @@ static void run_novalue_list(Src &s) {
   }
 }
 
+// a definition without value that takes the place of one with a number: as override in a merge, as the last
+// definition under JOIN_SAME_ENTRIES (an empty definition starts the list again)
+static void run_novalue_replaced(Src &s) {
+  static const char *forms[3] = {"%s\n", "%s=\n", "%s =\n"};
+  auto line = [&](const char *k) {
+    char b[64];
+    snprintf(b, sizeof b, forms[s.below(3)], k);
+    return std::string(b);
+  };
+  const bool join = s.chance(50);
+  std::string lower = "[N]\nv=8080\nw=0.5\nb=true\n", upper = "[N]\n" + line("v") + "\n" + line("w") + "\n" + line("b");  // (a bare key directly below an entry would continue it)
+  econf_file *kf = nullptr;
+  if (join) {
+    // one file, both definitions; a bare key directly below an entry would be a continuation line: empty lines between
+    std::string text = lower + "\n" + upper.substr(4);
+    write_file(g_scr.dir + "/nvj.conf", text);
+    econf_err e = econf_newKeyFile_with_options(&kf, ("JOIN_SAME_ENTRIES=1;PARSING_DIRS=" + g_scr.dir).c_str());
+    if (e == ECONF_SUCCESS) e = econf_readConfig(&kf, nullptr, nullptr, "nvj", "conf", "=", "#");
+    VF_CHECK(e == ECONF_SUCCESS && kf, "harness", "JOIN read rc=" << e << " file '" << esc(text) << "'");
+    g_case.desc = "number, then a definition without value under JOIN_SAME_ENTRIES, file '" + esc(text) + "'";
+  } else {
+    write_file(g_scr.dir + "/nvl.conf", lower);
+    write_file(g_scr.dir + "/nvu.conf", upper);
+    econf_file *a = nullptr, *b = nullptr;
+    econf_err e1 = econf_readFile(&a, (g_scr.dir + "/nvl.conf").c_str(), "=", "#"), e2 = econf_readFile(&b, (g_scr.dir + "/nvu.conf").c_str(), "=", "#");
+    econf_err e3 = e1 == ECONF_SUCCESS && e2 == ECONF_SUCCESS ? econf_mergeFiles(&kf, a, b) : ECONF_ERROR;
+    if (a) econf_freeFile(a);
+    if (b) econf_freeFile(b);
+    VF_CHECK(e3 == ECONF_SUCCESS && kf, "harness", "merge rc=" << e1 << "," << e2 << "," << e3);
+    g_case.desc = "number overridden by a definition without value (merge), override '" + esc(upper) + "'";
+  }
+  KG g{kf};
+  g_case.tag("key_without_value");
+  g_case.tag(join ? "value_reset_under_join" : "value_overridden_by_bare_key");
+  g_case.nontrivial = true;
+  g_case.shape_hash = fnv(upper, join ? 9201 : 9200);
+  g_case.evals = 8;
+  int32_t i32 = 42; int64_t i64 = 42; uint32_t u32 = 42; uint64_t u64 = 42; float f = 42; double d = 42; bool bb = true;
+  econf_err r;
+  r = econf_getIntValue(kf, "N", "v", &i32);    VF_CHECK(r != ECONF_SUCCESS, "invented-number", "getInt on a key whose last definition has no value succeeded with " << i32);
+  r = econf_getInt64Value(kf, "N", "v", &i64);  VF_CHECK(r != ECONF_SUCCESS, "invented-number", "getInt64 succeeded with " << i64);
+  r = econf_getUIntValue(kf, "N", "v", &u32);   VF_CHECK(r != ECONF_SUCCESS, "invented-number", "getUInt succeeded with " << u32);
+  r = econf_getUInt64Value(kf, "N", "v", &u64); VF_CHECK(r != ECONF_SUCCESS, "invented-number", "getUInt64 succeeded with " << u64);
+  r = econf_getFloatValue(kf, "N", "w", &f);    VF_CHECK(r != ECONF_SUCCESS, "invented-number", "getFloat succeeded with " << f);
+  r = econf_getDoubleValue(kf, "N", "w", &d);   VF_CHECK(r != ECONF_SUCCESS, "invented-number", "getDouble succeeded with " << d);
+  r = econf_getBoolValue(kf, "N", "b", &bb);    VF_CHECK(r != ECONF_SUCCESS || bb == false, "invented-value", "getBool answered true");
+  int64_t dflt = 7;
+  r = econf_getInt64ValueDef(kf, "N", "v", &dflt, 7);
+  VF_CHECK(r != ECONF_SUCCESS || dflt == 7, "invented-number", "getInt64Def answered " << dflt);
+}
+
 static void run_novalue(Src &s) {
+  if (s.chance(25)) return run_novalue_replaced(s);
   if (s.chance(50)) return run_novalue_list(s);
   size_t form = s.below(4);
   static const char *forms[4] = {"[N]\nv\n", "[N]\nv=\n", "[N]\nv \n", "[N]\nv =\n"};
